@@ -35,8 +35,9 @@ class InjectedFault(Exception):
     pass
 
 
-def build(vsc, prog, callbacks=False):
+def build(vsc, prog, callbacks=False, srcinfo=False):
     bt = Built(vsc, prog)
+    bt.srcinfo = srcinfo
     for en, members in prog.get("enums", {}).items():
         kind = prog.get("enum_kinds", {}).get(en, "IntEnum")
         base = enum.IntEnum if kind == "IntEnum" else enum.Enum
@@ -159,6 +160,8 @@ def _make_class(bt, cname, callbacks):
         ns["pre_randomize"] = pre_randomize
         ns["post_randomize"] = post_randomize
     T = type(cname, (base,), ns)
+    if getattr(bt, "srcinfo", False):
+        return vsc.randobj(srcinfo=True)(T)
     return vsc.randobj(T)
 
 
